@@ -413,8 +413,8 @@
 		jne	_%1_init_done	  ; No AVX512 possible
 		and	ebx, FLAGS_CPUID7_EBX_AVX512_G1
 		cmp	ebx, FLAGS_CPUID7_EBX_AVX512_G1
-		lea	mbin_rbx, [%6 WRT_OPT] ; AVX512/06 opt
-		cmove	mbin_rsi, mbin_rbx
+		jne	_%1_init_done	  ; No AVX512 G1, so no G2 either
+		lea	mbin_rsi, [%6 WRT_OPT] ; AVX512/06 opt
 
 		and	ecx, FLAGS_CPUID7_ECX_AVX512_G2
 		cmp	ecx, FLAGS_CPUID7_ECX_AVX512_G2
@@ -489,8 +489,8 @@
 		jne	_%1_check_avx2_g2	  ; No AVX512 possible
 		and	ebx, FLAGS_CPUID7_EBX_AVX512_G1
 		cmp	ebx, FLAGS_CPUID7_EBX_AVX512_G1
-		lea	mbin_rbx, [%6 WRT_OPT] ; AVX512/06 opt
-		cmove	mbin_rsi, mbin_rbx
+		jne	_%1_check_avx2_g2	  ; No AVX512 G1, so no G2 either
+		lea	mbin_rsi, [%6 WRT_OPT] ; AVX512/06 opt
 
 		and	ecx, FLAGS_CPUID7_ECX_AVX512_G2
 		cmp	ecx, FLAGS_CPUID7_ECX_AVX512_G2
